@@ -4,7 +4,8 @@
    src/image.rs on every run, so every theorem below is re-checked against them. *)
 From Coq Require Import List NArith Bool Lia.
 From SNT Require Import Base.Outcome Image.KDTree Image.Octree Image.Quantize Image.Sixel Image.SixelDraw
-     Image.SixelBody Image.SixelPicture Image.SixelFinal Image.SixelCache Gen.TabSixel.
+     Image.SixelBody Image.SixelPicture Image.SixelFinal Image.SixelCache Image.SixelFast Image.SixelFastProofs
+     Gen.TabSixel.
 Import ListNotations.
 Local Open Scope N_scope.
 
@@ -125,6 +126,15 @@ Example C12_repeat_nonvacuous :
   = match sixel_draw ex_rows_def [[0; 1]] with Ok b => [b; []; b] | _ => [] end /\
   sixel_draw ex_rows_def [[0; 1]] <> sixel_draw ex_rows_def [[1; 0]].
 Proof. split; [vm_compute; reflexivity|vm_compute; discriminate]. Qed.
+
+(* The predicates the correspondence evaluates on the implementation's bytes (map-based,
+   O(n log n)) are the predicates of the theorems above. *)
+Theorem C12_checked_predicates : forall w h p,
+  picture_ok_fast w h p = picture_ok w h p /\
+  (forall expected, picture_ok_fast w h p = true ->
+     Forall (fun r => N.of_nat (length r) = w) expected ->
+     picture_eq_fast w expected p = picture_eq expected p).
+Proof. exact fast_predicates. Qed.
 
 Check C12_decode : forall (rows : list (list spx)) (w : nat), src_ok rows w ->
   exists pal q, quantize (sixel_eff rows) sixel_palette_size sixel_dither = Ok (pal, q) /\
